@@ -110,10 +110,19 @@ def errval_program(kind, catcher, level, via, callstyle="plain"):
         thecall = p.call(p.id("thrower"), [])
     ss.append(p.localfunction("caller", p.func([], p.block([p.callstat(thecall), p.emit([p.str("not reached")])]))))
     h = lambda: p.func(["m"], p.block([p.emit([p.str("handler"), p.id("m"), p.id("x")]), p.ret([p.id("m"), p.str("extra")])]))
+    target = lambda: p.id("caller")
+    if callstyle == "callable":      # what the protected call is given is not a function but an object with __call
+        ss.append(p.local(["cobj"], [p.call(p.id("setmetatable"), [p.table([]), p.table([("k", p.add("str", s=list(b"__call"), name=True),
+                                     p.func(["self"], p.block([p.emit([p.str("via __call"), p.call(p.id("select"), [p.str("#"), p.dots()])]), p.ret([p.call(p.id("caller"), [])])]), va=True, ud=True))])])]))
+        target = lambda: p.id("cobj")
+    elif callstyle == "uncallable":  # ... or nothing that can be called: the fault is raised inside the protected call
+        target = lambda: p.num(5)
+    if callstyle in ("callable", "uncallable") and catcher in ("nested", "none"):
+        catcher = "pcall"
     if catcher == "pcall":
-        ss.append(p.emit([p.str("r"), p.call(p.id("pcall"), [p.id("caller")])]))
+        ss.append(p.emit([p.str("r"), p.call(p.id("pcall"), [target()])]))
     elif catcher == "xpcall":
-        ss.append(p.emit([p.str("r"), p.call(p.id("xpcall"), [p.id("caller"), h()])]))
+        ss.append(p.emit([p.str("r"), p.call(p.id("xpcall"), [target(), h()])]))
     elif catcher == "nested":
         inner = p.func([], p.block([p.emit([p.str("inner"), p.call(p.id("pcall"), [p.id("caller")])]), p.callstat(p.call(p.id("caller"), []))]))
         ss.append(p.emit([p.str("r"), p.call(p.id("pcall"), [inner])]))
